@@ -624,6 +624,28 @@ def last_component_eval(fn, sample):
             if pat.get('k') == 'Bind' and pat.get('hid') == body.get('hid'):
                 return recv
             raise ValueError('map pattern')
+        if m in ('find', 'rfind') and isinstance(recv, str):
+            sep = ev(args[0])
+            i = recv.find(sep) if m == 'find' else recv.rfind(sep)
+            return ('some', ('idx', i)) if i >= 0 else ('none',)
+        if m == 'map_or' and isinstance(recv, tuple) and recv[0] in ('some', 'none') and len(args) == 2:
+            if recv[0] == 'none':
+                return ev(args[0])
+            cl = H.strip_refs(args[1])
+            v = recv[1]
+            if cl.get('k') != 'Closure' or len(cl.get('params', [])) != 1 or cl['params'][0].get('k') != 'Bind' or not (isinstance(v, tuple) and v[0] == 'idx'):
+                raise ValueError('map_or')
+            body = H.strip_refs(cl['body'])
+            while body.get('k') == 'Block' and not body.get('stmts') and 'e' in body:
+                body = H.strip_refs(body['e'])
+            # &name[i + K..]
+            if body.get('k') == 'Index' and H.strip_refs(body['e']).get('hid') in ph:
+                rg = H.strip_refs(body['i'])
+                st = next((f_['e'] for f_ in rg.get('fields', []) if f_['f'] == 'start'), None) if rg.get('k') == 'Struct' and len(rg.get('fields', [])) == 1 else None
+                st = H.strip_refs(st) if st is not None else None
+                if st is not None and st.get('k') == 'Binary' and st.get('op') == 'Add' and H.strip_refs(st['l']).get('hid') == cl['params'][0].get('hid') and isinstance(H.lit_value(st['r']), int):
+                    return sample[v[1] + H.lit_value(st['r']):]
+            raise ValueError('map_or body')
         if m == 'unwrap_or' and isinstance(recv, tuple) and recv[0] in ('some', 'none'):
             return recv[1] if recv[0] == 'some' else ev(args[0])
         if m in ('unwrap', 'expect') and isinstance(recv, tuple) and recv[0] == 'some':
